@@ -46,7 +46,11 @@ def loaded_rules(settings, variant=None):
         if not is_entry_file(os.path.basename(rel), variant):
             continue
         if "rules" not in f:
-            continue            # raw text files of the generator are empty / comment-only: no rule
+            # raw text files of the generator: empty / comment-only (no rule, the file is skipped with an error
+            # message) or a YAML document that is not a list of mappings (deliberate error_and_quit)
+            if f.get("kind") == "not-a-rule-list":
+                return "quit"
+            continue
         for r in f["rules"]:
             if any(k not in RULE_KEYS for k in r):
                 return "quit"
@@ -277,8 +281,11 @@ def _render_py(f, M, facts, spec):
         for d in m["attrs"]:
             if d != "async":
                 lines.append("%s@%s" % (ind, d))
-        params = {"meth": "self, p", "cmeth": "cls, p"}.get(m["kind"], "p")
-        if m["kind"] == "dsmeth" or m["kind"] == "smeth":
+        if "classmethod" in m["attrs"]:
+            params = "cls, p"
+        elif m["kind"] == "meth":
+            params = "self, p"
+        else:
             params = "p"
         lines.append("%s%sdef %s(%s):" % (ind, "async " if "async" in m["attrs"] else "", m["name"], params))
         def_line = len(lines)
@@ -306,10 +313,14 @@ def _render_py(f, M, facts, spec):
         for mid in [x for x in mids if M[x]["cls"] == c and M[x].get("outer") is None]:
             emit_method(mid, "    ")
     if f["init"] is not None:
+        ind = ""
+        if f.get("init_style") == "main_guard":
+            lines.append('if __name__ == "__main__":')
+            ind = "    "
         if f["init"]:
-            lines.extend(_call_lines(None, f["init"], M, "1", ""))
+            lines.extend(_call_lines(None, f["init"], M, "1", ind))
         else:
-            lines.append("t0 = 0")
+            lines.append(ind + "t0 = 0")
     return "\n".join(lines) + "\n"
 
 
